@@ -5,7 +5,9 @@ _CACHE = {}
 def _build(name):
     from .engines import arrayhist as AH
     if name == 'C03':
-        return AH.ArrayHistory()
+        e = AH.ArrayHistory()
+        e.enum_alphabet = AH.C03_ALPHABET
+        return e
     if name == 'C02':
         e = AH.ArrayHistory()
         e.prop = 'C02'
@@ -15,7 +17,9 @@ def _build(name):
         return e
     from .engines import raggedhist as RH
     if name == 'C04':
-        return RH.RaggedHistory()
+        e = RH.RaggedHistory()
+        e.enum_alphabet = RH.C04_ALPHABET
+        return e
     if name == 'C05':
         e = RH.RaggedHistory()
         e.prop = 'C05'
@@ -43,6 +47,14 @@ def _build(name):
         r.weights = dict(append=2, iterappend=0, truncate=2, mode=3, reopen=10, append_bad=0,
                          truncate_bad=0, getbad=0, iter=0, meta=80)
         r.create_empty_p = 0.05
+        from . import meta as MM
+        a.enum_alphabet = MM.C13_ALPHABET
+        a.enum_starts = [
+            {'op': 'create', 'how': 'asarray', 'mode': 'r+', 'chunklen': None,
+             'data': {'gen': 'arange', 'rows': 2, 'trail': [], 'dtype': '<f8', 'layout': 'C', 'form': 'ndarray', 'vseed': 1}},
+            {'op': 'create', 'how': 'asarray', 'mode': 'r+', 'chunklen': None, 'metadata': {'a': {'k': 'float', 'v': 0.5}, 'b': {'k': 'str', 'v': 'x'}},
+             'data': {'gen': 'arange', 'rows': 2, 'trail': [], 'dtype': '<f8', 'layout': 'C', 'form': 'ndarray', 'vseed': 1}},
+        ]
         return Union('C13', [(3, a), (1, r)], quick_runs=5000, thorough_runs=150000, batch=40)
     if name == 'C11':
         a = AH.ArrayHistory()
